@@ -16,6 +16,11 @@ E-enum over a real SoftwareSwitch behind the byte-level connection (mc.env.Switc
     lengths), the 802.1Q TCI, (tos, ttl), every payload length up to a full datagram (forwarded, sent to the controller,
     as a table miss released from its buffer) and every value of the rewrite / max_len arguments run through ALL their
     values; the frames of a chunk pass through one long-lived switch, whose counters are read back at the end.
+ F. histories on one switch: the controller's answer to a packet-in (flow-mod, packet-out / flow-mod naming the buffer,
+    packet-out carrying the data) delivered RE-ENTRANTLY from inside the connection's send - i.e. inside rx_packet, an action
+    list or an OFPP_TABLE resubmission - or afterwards; a fault (exception) at every callout of the switch (DpPacketOut event,
+    packet-in send); a cable feeding emitted frames back in from inside the event; then probe traffic through the same switch.
+    Steps in which a fault occurred are not asserted, everything after them is.
 
 Oracle: mc/refs/refpkt.py, a byte-level rewriter/interpreter written from the specification text.  Emissions are
 compared per port, byte for byte, in order; packet-ins are decoded with the independent wire decoder; port counters
@@ -1266,7 +1271,352 @@ def _work_sweep (item):
 
 
 # ---------------------------------------------------------------------------------------------
+# F. histories on ONE switch: nested (re-entrant) processing, faults at the switch's callouts, later traffic
+# ---------------------------------------------------------------------------------------------
+# Sections A-E hand the switch one message / one frame at a time and look at what it did afterwards.  A switch that
+# lives in the controller's process is also entered RE-ENTRANTLY: the controller's answer to a packet-in (flow-mod,
+# packet-out naming the buffer) arrives from inside the connection's send(), i.e. while rx_packet / an action list / an
+# OFPP_TABLE resubmission is still on the stack; and the two places where the switch calls out to its environment (the
+# DpPacketOut event per emitted frame, the connection's send per message) can raise, which ends the processing of the
+# current message at that point.  Here a history of STEPS runs through one switch.  A step is
+#     (delivery, ingress port, outer action list | None, reaction | None, fault)
+#   delivery   "rx" (frame from the wire) or "po" (packet-out carrying the frame and the outer list)
+#   reaction   (install, how, list): what the controller does INSIDE the send of the step's first packet-in(s):
+#              optionally flow-mod ADD (in_port = packet-in's in_port -> output:4), then the list applied to the
+#              packet-in's frame by packet-out naming the buffer ("po-buf"), flow-mod naming the buffer ("fm-buf") or
+#              packet-out carrying the packet-in's data with the packet-in's in_port ("po-data")
+#   fault      0, or k: the k-th callout of the step (emissions and packet-ins counted together, in order) raises after
+#              the frame / message has been handed over
+# followed by a fixed tail of probe steps (plain and nested ones, other frames).  The table is fixed at the start:
+#   in_port 1 -> [output:4]     in_port 2 -> [set_vlan_pcp 9, output:3] (cannot be serialised: raises by itself)
+#   in_port 3 -> no entry (miss)     in_port 4 -> [output:2, output:CONTROLLER, output:3]
+# The reference (RefSw below) is an interpreter of the same steps over refpkt: a message / a frame from the wire is a
+# unit; a fault ends the unit it occurs in (the inner one, when it occurs inside a reaction) and nothing else.  Steps in
+# which a fault occurred are NOT asserted (the statement does not say what a half-processed message emits); every other
+# step - in particular every step AFTER a faulted one - must emit exactly what the reference does, and the tx counters
+# read back at the end must equal the frames handed to the DpPacketOut listener.
+H_ENTRIES = ((1, ("out4",)), (2, ("set_vlan_pcp=0x9", "out3")), (4, ("out2", "ctl64", "out3")))
+H_BAD = ("set_vlan_pcp", 9)
+H_OUTER = (("table",), ("out2", "table"), ("table", "out2"), ("vid", "table"), ("table", "vid", "out2"), ("table", "table"),
+           ("flood", "table", "inport"), ("ctl64",), ("out2", "ctl64", "out3"), ("ctl64", "dl_src", "out3"))
+H_RL = (("table",), ("out2",), ("out2", "table"), ("table", "out2"), ("ctl64",), ("flood",), ("dl_dst", "table"))
+H_HOW = ("po-buf", "fm-buf", "po-data", "po-buf-later")
+H_STEP_FRAME = "udp"
+H_TAIL = (
+  ("po", 1, ("table",), None, 0, "tcp-tag"),
+  ("po", 3, ("out2", "table"), (0, "po-buf", ("table", "out2")), 0, "arp"),
+  ("rx", 1, None, None, 0, "icmp"),
+  ("po", 4, ("table",), (0, "po-data", ("out2", "table")), 0, "udp-odd"),
+  ("rx", 3, None, (1, "po-buf", ("table",)), 0, "tcp"),
+  ("po", 3, ("table", "out2"), None, 0, "arp-tag"),
+)
+
+
+class _Fault (Exception):
+  pass
+
+
+class RefSw (object):
+  """Reference interpreter of section F (does not call pox).  The frame an action list works on is a one-element list
+  (a cell).  shared=False is the specification: a buffer holds its own copy of the frame the packet-in reported.
+  shared=True describes ONE particular deviation, used only to NAME a mismatch: the buffer of a table miss is the very
+  packet the resubmitting action list goes on working with (rewrites on either side show up on the other)."""
+  def __init__ (self, frames, shared=False, cable=None):
+    self.table = dict(H_ENTRIES)
+    self.frames = frames
+    self.shared = shared
+    self.cable = cable or {}
+    self.badarg = False       # an action list that cannot be serialised was carried out (tx counters not asserted then)
+
+  def step (self, st, react_n):
+    dl, port, outer, reaction, fault = st[:5]
+    frame = self.frames[st[5] if len(st) > 5 else H_STEP_FRAME]
+    self.ev = []
+    self.callouts = 0
+    self.fault = fault
+    self.faulted = False
+    self.reaction = reaction
+    self.reacts_left = react_n if reaction else 0
+    self.reacted = 0
+    self.later = []
+    if dl == "rx": self.unit(self.receive, [frame], port, "rx")
+    else: self.unit(self.process, [frame], outer, port, None)
+    for cell, in_port in self.later:          # answers sent after the message had been processed
+      self.unit(self.process, cell, reaction[2], in_port, None)
+    return frame
+
+  def unit (self, fn, *a):
+    try: fn(*a)
+    except _Fault: self.faulted = True
+
+  def callout (self):
+    self.callouts += 1
+    if self.callouts == self.fault: raise _Fault()
+
+  def emit (self, p, f, lab):
+    self.ev.append(("out", p, f, lab))
+    self.callout()
+    if p in self.cable: self.receive([f], self.cable[p], "rx")      # the frame comes back in on another port at once
+
+  def pin (self, reason, in_port, cell, mx, lab):
+    f = cell[0]
+    self.ev.append(("pin", reason, in_port, f, mx, lab))
+    self.callout()
+    if self.reacts_left:
+      self.reacts_left -= 1
+      self.reacted += 1
+      install, how, rl = self.reaction
+      buffered = cell if (self.shared and reason == W.OFPR_NO_MATCH and how != "po-data") else [f]
+      if install: self.unit(self.table.__setitem__, in_port, ("out4",))
+      if how == "po-buf-later": self.later.append((buffered, in_port))
+      else: self.unit(self.process, buffered, rl, in_port, None)
+
+  def process (self, cell, labels, in_port, via):
+    bad = False
+    for l in labels:
+      a = LABELS[l]
+      lab = via or l
+      if a[0] not in ("output", "enqueue"):
+        if a == H_BAD: bad = True
+        cell[0] = R.rewrite(cell[0], a)
+        continue
+      if bad:
+        self.badarg = True
+        raise _Fault()
+      if a[1] == R.OFPP_CONTROLLER: self.pin(W.OFPR_ACTION, in_port, cell, a[2], lab)
+      elif a[1] == R.OFPP_TABLE: self.receive(cell, in_port, lab)
+      else:
+        for p in R.out_ports(a[1], in_port, PORTS0): self.emit(p, cell[0], lab)
+
+  def receive (self, cell, in_port, lab):
+    entry = self.table.get(in_port)
+    if entry is not None: self.process(cell, entry, in_port, "table" if lab != "rx" else "rx")
+    else: self.pin(W.OFPR_NO_MATCH, in_port, cell, MISS, lab if lab != "rx" else "table-miss")
+
+
+class HSw (Sw):
+  """Sw with the two callouts of the switch instrumented: a DpPacketOut listener registered AFTER the recording one,
+  and the io worker's send.  Both count callouts, raise at the armed one, and the send answers packet-ins from inside."""
+  def __init__ (self, cable=None):
+    Sw.__init__(self)
+    self.cable = cable or {}
+    self.count = 0
+    self.fault = 0
+    self.reaction = None
+    self.reacts_left = 0
+    self.injected = 0
+    self.later = []
+    st = self.st
+    st.sw.addListener(st.swmod.DpPacketOut, self._on_emit)
+    self._send = st.worker.send
+    st.worker.send = self._on_send
+
+  def arm (self, reaction, fault, react_n):
+    self.count = 0; self.fault = fault; self.reaction = reaction
+    self.reacts_left = react_n if reaction else 0
+    self.later = []
+
+  def send_later (self):
+    """The answers the controller sends only after the switch has finished with the message that caused the packet-in."""
+    later, self.later = self.later, []
+    for bid, in_port in later:
+      self.feed(W.packet_out(self.nxid(), encode(self.reaction[2]), b"", buffer_id=bid, in_port=in_port))
+
+  def _callout (self):
+    self.count += 1
+    if self.count == self.fault:
+      self.injected += 1
+      raise RuntimeError("fault injected at callout %d" % self.count)
+
+  def _on_emit (self, e):
+    self._callout()
+    back = self.cable.get(e.port.port_no)
+    if back is not None:
+      self.obs.calls += 1
+      self.st.rx(e.packet.pack(), back)
+
+  def _on_send (self, data):
+    self._send(data)
+    if len(data) < 8 or data[1] != W.PACKET_IN: return
+    self._callout()
+    if not self.reacts_left: return
+    self.reacts_left -= 1
+    p = W.decode(data)
+    install, how, rl = self.reaction
+    if install:
+      self.st.feed(W.flow_mod(self.nxid(), W.match_fields(in_port=p["in_port"]), W.OFPFC_ADD, encode(("out4",))))
+    self.obs.calls += 1
+    if how == "po-buf-later":
+      self.later.append((p["buffer_id"], p["in_port"]))
+    elif how == "po-data" and len(p["data"]) == p["total_len"]:
+      self.st.feed(W.packet_out(self.nxid(), encode(rl), p["data"], in_port=p["in_port"]))
+    elif how == "fm-buf":
+      self.st.feed(W.flow_mod(self.nxid(), W.match_fields(in_port=TPORT, dl_type=0x9999), W.OFPFC_ADD, encode(rl), buffer_id=p["buffer_id"]))
+    else:
+      self.st.feed(W.packet_out(self.nxid(), encode(rl), b"", buffer_id=p["buffer_id"], in_port=p["in_port"]))
+
+
+H_CABLES = ((), ((2, 1),))   # no cable | a cable from port 2 back into port 1 (whose entry forwards to port 4: no loop possible)
+
+
+def h_steps (frames, react_n, cable=()):
+  """The step alphabet: every (delivery, port) x outer list x reaction x fault position that is distinct for the
+  reference (reactions only where the step sends a packet-in, one fault per callout the unfaulted step makes)."""
+  base = []
+  for port in (1, 3, 4):
+    base.append(("rx", port, None))
+    for outer in H_OUTER: base.append(("po", port, outer))
+  base.append(("rx", 2, None)); base.append(("po", 2, ("table",))); base.append(("po", 2, ("out2", "table", "out3")))
+  reactions = [None] + [(i, how, rl) for i in (0, 1) for how in H_HOW for rl in H_RL]
+  out = []
+  for dl, port, outer in base:
+    for reaction in reactions:
+      m = RefSw(frames, cable=dict(cable))
+      m.step((dl, port, outer, reaction, 0), react_n)
+      if reaction is not None and not m.reacted: continue       # no packet-in: same as without a reaction
+      for k in range(0, m.callouts + 1):
+        out.append((dl, port, outer, reaction, k))
+  return out
+
+
+def h_reduced (steps):
+  """Second steps of two-step histories (thorough tier): every unfaulted step without a reaction, and the steps rx(3),
+  packet-out [table] with in_port 3 / 4 answered, with and without installation, by a packet-out [table] naming the buffer."""
+  trig = (("rx", 3, None), ("po", 3, ("table",)), ("po", 4, ("table",)))
+  return [s for s in steps if s[4] == 0 and (s[3] is None or (s[3][1] == "po-buf" and s[3][2] == ("table",) and s[:3] in trig))]
+
+
+def _h_expect (model):
+  e = Exp(PORTS0)
+  for x in model.ev:
+    if x[0] == "out": e.per_port[x[1]].append((x[2], x[3]))
+    else: e.pins.append(x[1:])
+  return e
+
+
+def _h_deliver (sw, st, frame):
+  dl, port, outer = st[:3]
+  if dl == "rx": sw.rx(frame, port)
+  else: sw.feed(W.packet_out(sw.nxid(), encode(outer), frame, in_port=port))
+
+
+def _h_text (st):
+  dl, port, outer, reaction, fault = st[:5]
+  s = "frame %s %s" % (st[5] if len(st) > 5 else H_STEP_FRAME,
+                       "received on port %d" % port if dl == "rx" else "in a packet-out [%s] with in_port %d" % (",".join(outer), port))
+  if reaction:
+    s += "; inside the send of the packet-in the controller answers with %s%s [%s]" % (
+      "flow-mod ADD (in_port of the packet-in -> output:4) and " if reaction[0] else "",
+      {"po-buf": "a packet-out naming the buffer", "fm-buf": "a flow-mod naming the buffer",
+       "po-data": "a packet-out carrying the packet-in's data",
+       "po-buf-later": "(but only after the switch has finished with the step's message) a packet-out naming the buffer"}[reaction[1]],
+      ",".join(reaction[2]))
+  if fault: s += "; callout %d of the step raises" % fault
+  return s
+
+
+def run_history (frames, steps, react_n=1, tail=True, trace=None, cable=()):
+  """Returns (violations [(key, what)], summary, #calls).  Only the first step that differs is reported."""
+  sw = HSw(dict(cable)); obs = sw.obs
+  model = RefSw(frames, cable=dict(cable))
+  shared = RefSw(frames, shared=True, cable=dict(cable))
+  for port, labels in H_ENTRIES:
+    sw.feed(W.flow_mod(sw.nxid(), W.match_fields(in_port=port), W.OFPFC_ADD, encode(labels)))
+  bad = []
+  summary = []
+  if obs.errors or obs.raised:
+    return [("%s:history:setup" % PID, "installing the table failed: %r %r" % ([(e["etype"], e["code"]) for e in obs.errors], obs.raised))], None, obs.calls
+  allsteps = list(steps) + (list(H_TAIL) if tail else [])
+  phase = "plain"           # what preceded the first differing step
+  out_all = []
+  for i, st in enumerate(allsteps):
+    frame = model.step(st, react_n)
+    shared.step(st, react_n)
+    sw.arm(st[3], st[4], react_n)
+    obs.out = []; obs.pins = []; obs.errors = []; obs.raised = None; obs.garbled = False
+    _h_deliver(sw, st, frame)
+    sw.send_later()
+    sw.arm(None, 0, 0)
+    out_all += obs.out
+    summary.append((tuple((p, digest(f)) for p, f in obs.out), tuple((p["reason"], p["in_port"]) for p in obs.pins),
+                    model.faulted))
+    if trace is not None:
+      trace.append("step %d: %s\n   expected %s%r packet-ins %r\n   observed %r packet-ins %r%s"
+                   % (i + 1, _h_text(st), "(not asserted: faulted) " if model.faulted else "",
+                      [(x[1], x[2].hex()) for x in model.ev if x[0] == "out"], [(x[1], x[2], len(x[3])) for x in model.ev if x[0] == "pin"],
+                      [(p, f.hex()) for p, f in obs.out], [(p["reason"], p["in_port"], p["total_len"]) for p in obs.pins],
+                      " raised %r" % (obs.raised,) if obs.raised is not None else ""))
+    if model.faulted:
+      phase = "after-fault"
+      continue
+    nested = bool(st[3]) and model.reacted
+    ctx = "nested" if nested else phase
+    where = "%sstep %d of %d (%s)%s" % ("".join("[every frame emitted on port %d is received on port %d at once] " % c for c in cable),
+                                        i + 1, len(allsteps), _h_text(st),
+                                        "" if i == 0 else ", after: " + " | ".join(_h_text(s) for s in allsteps[:i]))
+    if obs.raised is not None:
+      bad.append(("%s:history:raises:%s:%s" % (PID, site_of(obs.raised), ctx), "%s: %s: %s" % (where, type(obs.raised).__name__, obs.raised)))
+      break
+    step = Obs(); step.out = obs.out; step.pins = obs.pins
+    recs = compare(_h_expect(model), step)
+    if recs and not (obs.garbled or obs.errors) and not compare(_h_expect(shared), step):
+      # exactly what a switch does whose table-miss buffer IS the packet the resubmitting action list works on
+      bad.append(("%s:history:table-miss-buffer-shares-packet" % PID,
+                  "%s: %s (the buffer of the table miss and the packet of the action list that resubmitted it are one object: "
+                  "rewrites made on one side appear on the other)" % (where, recs[0]["what"])))
+      break
+    if obs.garbled: recs.append(dict(clause="wire", what="switch wrote bytes that do not frame as OpenFlow messages"))
+    if obs.errors:
+      recs.append(dict(clause="error-reply", code="%d.%d" % (obs.errors[0]["etype"], obs.errors[0]["code"]),
+                       what="switch answered with OFPT_ERROR type %d code %d" % (obs.errors[0]["etype"], obs.errors[0]["code"])))
+    for r in recs:
+      c = r["clause"]
+      if c == "ports":
+        labs = "table" if "table" in r["labels"] else (",".join(r["labels"]) or "none")
+        k = "ports:%s:%s:%s" % (labs, r["dir"], "ingress-port" if r["port"] == st[1] else "port")
+      elif c == "bytes": k = "bytes:%s" % r["layers"]
+      elif c == "packet-in": k = "packet-in:%s" % r["sub"]
+      elif c == "error-reply": k = "error-reply:%s" % r["code"]
+      else: k = c
+      bad.append(("%s:history:%s:%s" % (PID, k, ctx), "%s: %s" % (where, r["what"])))
+    if bad: break
+    if nested and phase == "plain": phase = "after-nested"
+  if not bad:
+    sw.port_stats()
+    if obs.raised is not None:
+      bad.append(("%s:history:counters:raises:%s" % (PID, site_of(obs.raised)), "port-stats request after the history raised %r" % (obs.raised,)))
+    elif not model.badarg:
+      obs.out = out_all
+      e = Exp(PORTS0)
+      for r in check_counters(e, obs):
+        if r["field"].startswith("rx"): continue
+        bad.append(("%s:history:counters:%s:%s" % (PID, r["field"], phase),
+                    "after %s: %s" % (" | ".join(_h_text(s) for s in steps), r["what"])))
+  return bad, tuple(summary), obs.calls
+
+
+def _work_history (item):
+  from mc.env import boot
+  boot()
+  react_n, cable, histories = item
+  frames = dict(corpus())
+  rep = Report(PID, "model_checking")
+  for h in histories:
+    bad, summary, calls = run_history(frames, h, react_n, cable=cable)
+    rep.evaluations += 1; rep.transitions += calls
+    rep.outcome(("hist", summary, tuple(sorted(k for k, w in bad))))
+    for k, what in bad:
+      rep.violation(k, what, dict(kind="history", steps=[list(s) for s in h], react_n=react_n, cable=[list(c) for c in cable]))
+    if not bad and rep.evaluations % 400 == 11:
+      rep.sample(dict(cable=list(cable), history=[_h_text(s) for s in h], then="%d probe steps" % len(H_TAIL),
+                      emitted_ports_per_step=[[p for p, d in s[0]] for s in summary], packet_ins_per_step=[len(s[1]) for s in summary]))
+  rep.state_count = rep.evaluations
+  return rep
+
+
+# ---------------------------------------------------------------------------------------------
 def _work (item):
+  if item[0] == "history": return _work_history(item[1:])
   if item[0] == "sweep": return _work_sweep(item[1:])
   if item[0] == "lifecycle": return _work_lifecycle(item[1:])
   if item[0] == "ports": return _work_ports(item[1:])
@@ -1325,8 +1675,23 @@ def run (cfg):
       if hs[i::n]: items.append(("lifecycle", tuple(hs[i::n])))
   if only in (None, "sweeps"):
     items += sweep_items(cfg.quick)
+  react_n = cfg.pick(1, 2)
+  n_hist = n_hsteps = 0
+  if only in (None, "history"):
+    fr = dict(corpus())
+    for cable in H_CABLES:
+      hsteps = h_steps(fr, react_n, cable)
+      n_hsteps += len(hsteps)
+      hs = [(s,) for s in hsteps]
+      if not cfg.quick and not cable:
+        red = h_reduced(hsteps)
+        hs += [(a, b) for a in hsteps for b in red]
+      n_hist += len(hs)
+      per = 150
+      for i in range(0, len(hs), per):
+        items.append(("history", react_n, cable, tuple(hs[i:i + per])))
   # big items first so the pool drains evenly
-  items.sort(key=lambda it: (0 if it[0] == "sweep" else 1 if it[0] == "lists" and it[3] is not None else 2, repr(it)))
+  items.sort(key=lambda it: (0 if it[0] == "sweep" else 1 if (it[0] == "lists" and it[3] is not None) or it[0] == "history" else 2, repr(it)))
   n_alpha = len(ALPHA)
   BUF_RULE = ("flow-created buffer + packet-out length <=%d for %s frames; miss-created buffer, flow-mod release, "
               "packet-out-created and rewrite-before-buffer variants length <=%d, all frames"
@@ -1346,6 +1711,16 @@ def run (cfg):
               "output:2 / enqueue:2 / FLOOD / ALL / IN_PORT(frame entering on 2), each as packet-out and as flow entry, then port stats. "
               "E: value sweeps, every value of each through one switch per chunk of %d (%d for lengths), every emission compared, "
               "port counters read back per chunk, failing values re-run alone on a fresh switch: %s. "
+              "F: histories on one switch whose table is in_port 1 -> [output:4], 2 -> [set_vlan_pcp 9, output:3] (cannot be serialised), "
+              "4 -> [output:2, output:CONTROLLER, output:3], 3 -> no entry: %s of steps (delivery {frame from the wire, packet-out carrying "
+              "the frame} x ingress port {1,3,4} x outer list {%s}, and three deliveries through the unserialisable entry) x reaction of the "
+              "controller to the first %d packet-in(s) of the step {none} + {flow-mod ADD (packet-in's in_port -> output:4) first | not} x "
+              "{packet-out naming the buffer, flow-mod naming the buffer, packet-out carrying the packet-in's data: all three delivered from "
+              "INSIDE the connection's send of the packet-in (re-entrantly); packet-out naming the buffer after the step's message has been "
+              "processed} x list {%s} x fault {none, or the k-th callout of the step - DpPacketOut event or packet-in send, counted together - "
+              "raises, for every k up to the number of callouts the step makes} (%d steps), each followed by %d probe steps (plain and nested "
+              "TABLE resubmissions, frames from the wire, other frames) and a port-stats request; the whole also with a cable that feeds every "
+              "frame emitted on port 2 back into port 1 from inside the DpPacketOut event; %d histories. "
               "One fresh switch per case in A-D; cases are distinct as (frame, delivery, action list) / (configs, kind, delivery); "
               "distinct outcomes = distinct (case class, emitted (port, frame) sequence, packet-ins, verdict)"
               % (L_main, n_alpha, ",".join(l for l, a in ALPHA), ",".join(MAIN_FRAMES), L_none, L_extra, ",".join(EXTRA_FRAMES),
@@ -1354,8 +1729,11 @@ def run (cfg):
                  ",".join(PORT_KINDS), "64 x 8" if cfg.quick else "64 x 64", L_life, SWEEP_CHUNK, LEN_CHUNK,
                  "; ".join("%s = %s, %d values, %s [%s]" % (x[0], x[6], x[3], {"flow": "flow entry", "pout": "packet-out", "buf-miss": "buffer release"}[x[2]],
                                                               ",".join(l.split("=")[0] for l in x[5](1)))
-                           for x in SWEEPS if x[1] == "q" or not cfg.quick)))
-  rep.bound = dict(list_length=L_main, list_length_extra_frames=L_extra, list_length_in_port_none=L_none, alphabet=n_alpha,
+                           for x in SWEEPS if x[1] == "q" or not cfg.quick),
+                 "every single step" if cfg.quick else "every single step, and every pair (any step, then a step without fault out of a reduced set)",
+                 " | ".join(",".join(o) for o in H_OUTER), react_n, " | ".join(",".join(o) for o in H_RL), n_hsteps, len(H_TAIL), n_hist))
+  rep.bound = dict(history_steps=cfg.pick(1, 2), history_step_alphabet=n_hsteps, histories=n_hist, reactions_per_step=react_n,
+                   faults_per_step=1, list_length=L_main, list_length_extra_frames=L_extra, list_length_in_port_none=L_none, alphabet=n_alpha,
                    frames=len(MAIN_FRAMES) + len(EXTRA_FRAMES), ports=NPORTS, port_history_depth=L_life,
                    sweeps=len([x for x in SWEEPS if x[1] == "q" or not cfg.quick]),
                    sweep_values=sum(x[3] for x in SWEEPS if x[1] == "q" or not cfg.quick))
@@ -1371,6 +1749,13 @@ def run (cfg):
     "unspecified and therefore not asserted: acceptance of frames arriving on a PORT_DOWN port; whether NO_PACKET_IN silences output:CONTROLLER; "
     "whether frames refused by NO_RECV/NO_RECV_STP count as received",
     "IP/TCP checksum 0x0000 and 0xffff are treated as equal (did not occur)",
+    "histories (F): a message from the controller / a frame from the wire is one unit of processing; an exception raised by a callout ends "
+    "the unit it occurs in (the controller's answer, when it occurs inside one) and nothing else; what a step emits in which a fault occurred "
+    "is not asserted (nor, after an action list that cannot be serialised, the tx counters), every other step and the tx counters are; "
+    "rx counters are not asserted (resubmissions); the raising DpPacketOut listener runs after the recording one and the packet-in is "
+    "written before its send raises, so the fault never hides a frame or message from the observer; table entries reached through "
+    "OFPP_TABLE carry no rewrites (whether rewrites made by such an entry persist in the resubmitting list is not specified); a buffer "
+    "holds the frame its packet-in reported, whatever the action list that caused the packet-in does afterwards",
     "value sweeps (E): the switch is not renewed between the values of a chunk (it is after a failing value); every swept frame has "
     "valid lengths and checksums built by the reference; one swept 16-bit word per checksummed region stands for every word of it "
     "(the sum is commutative) - the thorough tier moves the word and changes the number of carries the other words provide; "
@@ -1436,6 +1821,19 @@ def replay (cfg, data):
              % (EG, data["history"]),
              "probes: %r as packet-out, then as flow entry" % (LC_KINDS,),
              "(port present, config bits per reference, ports that emitted per probe): %r" % (summary,)]
+  elif k == "history":
+    def tup (st):
+      st = list(st)
+      if st[2] is not None: st[2] = tuple(st[2])
+      if st[3] is not None: st[3] = (st[3][0], st[3][1], tuple(st[3][2]))
+      return tuple(st)
+    steps = tuple(tup(st) for st in data["steps"])
+    lines = ["table: %s; in_port 3 -> no entry" % "; ".join("in_port %d -> [%s]" % (p, ",".join(l)) for p, l in H_ENTRIES),
+             "history of %d step(s) on one switch, then %d probe steps; the controller answers the first %d packet-in(s) of a step "
+             "that has a reaction" % (len(steps), len(H_TAIL), data.get("react_n", 1))]
+    cable = tuple(tuple(c) for c in data.get("cable", ()))
+    for c in cable: lines.append("a cable: every frame emitted on port %d is received on port %d at once" % c)
+    bad, summary, calls = run_history(frames, steps, data.get("react_n", 1), trace=lines, cable=cable)
   elif k == "portmod":
     a, b = from_names(data["a"]), from_names(data["b"])
     bad, summary, calls = run_portmod_case(a, b, data["full"])
